@@ -450,6 +450,35 @@ def conv_rule(chk, db):
         chk.unknown_instance("CONV", construct, msg)
 
 
+def common_rule(chk, db):
+    """COMMON: a binary operator on two durations of different types reads the tick counts only after both operands were
+    converted to the common duration: `.count()` is never applied to a raw parameter there (the raw count of the coarser
+    operand is in the wrong unit)."""
+    n = 0
+    for f in db.funcs:
+        if not f["file"].startswith("_chrono/duration.hpp") or f.get("body") is None or len(f["params"]) != 2:
+            continue
+        tys = [p0["ty"] for p0 in f["params"]]
+        if not all("duration<" in t for t in tys) or tys[0].replace("1", "").replace("2", "") != tys[1].replace("1", "").replace("2", "") or tys[0] == tys[1]:
+            continue
+        names = [p0["n"] for p0 in f["params"]]
+        n += 1
+        construct = astx.sig(f)
+        chk.instance("COMMON")
+        raw = []
+        for x in astx.all_exprs(f):
+            if x.get("k") == "call" and astx.callee(x)[0] == "count" and astx.callee(x)[3] == "member":
+                b = astx.strip_casts(astx.callee(x)[2])
+                if b is not None and b.get("k") == "ref" and b.get("n") in names:
+                    raw.append(x)
+        chk.obligation("COMMON", construct, not raw)
+        for x in raw[:1]:
+            chk.violation("COMMON", construct, "raw-count", "%s: `%s` reads the tick count of a parameter that has not been converted to the "
+                          "common duration" % (astx.loc(f, x), astx.show(x, 40)), {"where": astx.loc(f)})
+    if n < 6:
+        chk.analysis_broken("COMMON: only %d mixed-type binary duration operators found (floor 6)" % n)
+
+
 META_EXTRA = 'CAST / CONV (conversion arithmetic skeleton count*num/den in the common type; kernel selection); ROUND (floor/ceil/round decision tables, sign-robust parity).'
 META = (META[0] + " " + META_EXTRA, META[1])
 
@@ -461,6 +490,7 @@ def run(chk, tier):
     _PR.check(chk, db, ['_chrono/duration', '_chrono/floor', '_chrono/ceil', '_chrono/round', '_chrono/abs', '_chrono/time_point'], floor=30)
     cast_rule(chk, db)
     conv_rule(chk, db)
+    common_rule(chk, db)
     round_rule(chk, db)
     tus, info = gen.generate(quick)
     res = wit.compile_many(tus, compiler="g++", jobs=16)
